@@ -693,43 +693,71 @@ func checkDeletePresence(r *Run, p *packages.Package, lm *LockModel) {
 			}
 			// the removal is reached only when the ok of a comma-ok lookup of the same key in the store is true: inside
 			// `if ok { … }`, or after `if !ok { return }`
-			guarded := false
-			okVars := map[types.Object]bool{}
-			ast.Inspect(m.Decl.Body, func(x ast.Node) bool {
-				as, isAssign := x.(*ast.AssignStmt)
-				if !isAssign || len(as.Lhs) != 2 || len(as.Rhs) != 1 || as.Pos() >= call.Pos() {
+			guardedAt := func(decl *ast.FuncDecl, at ast.Node, key string) bool {
+				okVars := map[types.Object]bool{}
+				ast.Inspect(decl.Body, func(x ast.Node) bool {
+					as, isAssign := x.(*ast.AssignStmt)
+					if !isAssign || len(as.Lhs) != 2 || len(as.Rhs) != 1 || as.Pos() >= at.Pos() {
+						return true
+					}
+					okID, isID := as.Lhs[1].(*ast.Ident)
+					ix, isIndex := ast.Unparen(as.Rhs[0]).(*ast.IndexExpr)
+					if isID && isIndex && selectsField(info, ix.X, store) && exprString(r.Fset, ix.Index) == key {
+						okVars[info.ObjectOf(okID)] = true
+					}
 					return true
+				})
+				var holds func(e ast.Expr, neg bool) bool
+				holds = func(e ast.Expr, neg bool) bool {
+					e = ast.Unparen(e)
+					switch t := e.(type) {
+					case *ast.UnaryExpr:
+						if t.Op == token.NOT {
+							return holds(t.X, !neg)
+						}
+					case *ast.BinaryExpr:
+						if t.Op == token.LAND && !neg {
+							return holds(t.X, false) || holds(t.Y, false)
+						}
+						if t.Op == token.LOR && neg {
+							return holds(t.X, true) || holds(t.Y, true)
+						}
+					case *ast.Ident:
+						return !neg && okVars[info.Uses[t]]
+					}
+					return false
 				}
-				okID, isID := as.Lhs[1].(*ast.Ident)
-				ix, isIndex := ast.Unparen(as.Rhs[0]).(*ast.IndexExpr)
-				if isID && isIndex && selectsField(info, ix.X, store) && exprString(r.Fset, ix.Index) == key {
-					okVars[info.ObjectOf(okID)] = true
-				}
-				return true
-			})
-			var holds func(e ast.Expr, neg bool) bool
-			holds = func(e ast.Expr, neg bool) bool {
-				e = ast.Unparen(e)
-				switch t := e.(type) {
-				case *ast.UnaryExpr:
-					if t.Op == token.NOT {
-						return holds(t.X, !neg)
+				for _, l := range controlConds(decl.Body, at) {
+					if holds(l.Expr, l.Neg) {
+						return true
 					}
-				case *ast.BinaryExpr:
-					if t.Op == token.LAND && !neg {
-						return holds(t.X, false) || holds(t.Y, false)
-					}
-					if t.Op == token.LOR && neg {
-						return holds(t.X, true) || holds(t.Y, true)
-					}
-				case *ast.Ident:
-					return !neg && okVars[info.Uses[t]]
 				}
 				return false
 			}
-			for _, l := range controlConds(m.Decl.Body, call) {
-				if holds(l.Expr, l.Neg) {
-					guarded = true
+			guarded := guardedAt(m.Decl, call, key)
+			if !guarded && !fn.Exported() {
+				// an unexported step (`removeEntry(key)`): every caller among the cache's methods makes the lookup
+				if kid, isID := ast.Unparen(call.Args[1]).(*ast.Ident); isID {
+					if idx := paramIndexOf(info, m.Decl, info.Uses[kid]); idx >= 0 {
+						callers, all := 0, true
+						for _, cm := range lm.Methods {
+							ast.Inspect(cm.Decl.Body, func(x ast.Node) bool {
+								c2, isCall := x.(*ast.CallExpr)
+								if !isCall || idx >= len(c2.Args) {
+									return true
+								}
+								if callee := calleeOf(info, c2); callee == nil || callee.Origin() != fn.Origin() {
+									return true
+								}
+								callers++
+								if !guardedAt(cm.Decl, c2, exprString(r.Fset, c2.Args[idx])) {
+									all = false
+								}
+								return true
+							})
+						}
+						guarded = callers > 0 && all
+					}
 				}
 			}
 			_ = stack
